@@ -28,6 +28,61 @@ ORD = lambda m: Sym('Ordering', m)   # noqa: E731
 
 
 # ----------------------------------------------------------------------
+# T3 RealFloat with a non-finite Python float, and with operand types it does not know
+
+def t3_realfloat_foreign_operands(ctx: Ctx):
+    import math
+    from ..minipy import Interp, Obj
+    # the implementation is the last definition of a name (the earlier ones are @overload stubs)
+    meths = {s.name: s for s in ctx.repo.cls(REALS, 'RealFloat').body if isinstance(s, ast.FunctionDef)}
+    overrides = {'math.isnan': math.isnan, 'math.isinf': math.isinf, 'math.copysign': math.copysign}
+    glob = {'math': {'nan': math.nan, 'inf': math.inf}}
+
+    def rf(s: bool, c: int) -> Obj:
+        return Obj('RealFloat', _s=s, _c=c, _exp=0)
+
+    def show(x) -> str:
+        return 'nan' if isinstance(x, float) and math.isnan(x) else repr(x)
+    for op, fn in (('__mul__', meths.get('__mul__')), ('__add__', meths.get('__add__'))):
+        if fn is None:
+            raise ShapeError(f'RealFloat.{op} not found')
+        bad = None
+        n = 0
+        for s in (False, True):
+            for c in (0, 3):
+                for other in (math.inf, -math.inf, math.nan):
+                    me = rf(s, c)
+                    it = Interp({}, methods=meths, globals_=dict(glob), overrides=overrides, self_obj=me)
+                    got = it.call_function(fn, [other], bound_self=True)
+                    n += 1
+                    if op == '__mul__':
+                        want = math.nan if (math.isnan(other) or c == 0) else (-math.inf if s != (other < 0) else math.inf)
+                    else:
+                        want = other
+                    same = isinstance(got, float) and ((math.isnan(got) and math.isnan(want)) or got == want)
+                    if not same and bad is None:
+                        val = ('-' if s else '') + str(c)
+                        bad = f'RealFloat({val}) {"*" if op == "__mul__" else "+"} {show(other)} = {show(got)}, IEEE gives {show(want)}'
+        ctx.check(bad is None, REALS, fn, f'RealFloat.{op}', f'{op} with an infinite or NaN float follows the IEEE rules ({n} sign / zero / special combinations)', bad or '')
+        # an operand of a type this class does not know is left to the other operand's reflected method
+        ms = [x for x in walk_no_nested(fn) if isinstance(x, ast.Match)]
+        last = ms[0].cases[-1] if ms else None
+        ok = last is not None and isinstance(last.pattern, ast.MatchAs) and last.pattern.pattern is None and len(last.body) >= 1 \
+            and isinstance(last.body[-1], ast.Return) and norm(last.body[-1].value) == 'NotImplemented'
+        ctx.check(ok, REALS, last.pattern if last is not None else fn, f'RealFloat.{op}', f'{op}: an unknown operand type returns NotImplemented (so `RealFloat {"*" if op == "__mul__" else "+"} Float` reaches Float\'s reflected method)',
+                  'raises TypeError itself: mixing RealFloat (left) with Float (right) fails although the reverse order works')
+    sub = meths.get('__sub__')
+    ctx.check(sub is not None and norm(sub.body[-1]) == 'return self + -other', REALS, sub, 'RealFloat.__sub__', '__sub__ is addition of the negation', f'got {norm(sub.body[-1]) if sub else None}')
+    for r, want in (('__radd__', 'return self + other'), ('__rmul__', 'return self * other'), ('__rsub__', 'return -self + other')):
+        f = meths.get(r)
+        ctx.check(f is not None and norm(f.body[-1]) == want, REALS, f, f'RealFloat.{r}', f'{r}: {want[7:]}', f'got {norm(f.body[-1]) if f else None}')
+    fl = {s.name: s for s in ctx.repo.cls(FLOATS, 'Float').body if isinstance(s, ast.FunctionDef)}
+    for r, want in (('__radd__', 'return self + other'), ('__rmul__', 'return self * other'), ('__rsub__', 'return -self + other')):
+        f = fl.get(r)
+        ctx.check(f is not None and norm(f.body[-1]) == want, FLOATS, f, f'Float.{r}', f'Float.{r}: {want[7:]}', f'got {norm(f.body[-1]) if f else None}')
+
+
+# ----------------------------------------------------------------------
 # S1 unary operators: sign handling agrees between the two classes
 
 def sign_role(call: ast.Call) -> str:
@@ -442,11 +497,17 @@ RULES = [
     Rule('C05.T2', 'comparison tables: dunders, Float.compare, RealFloat.compare, Ordering, CompareOp', t2_compare, 70, 'T'),
     Rule('C05.P1', 'conversions to native types are exact or raise', p1_exact_conversions, 16, 'P'),
     Rule('C05.F1', 'hash goes through the denoted value; == gates on the five numeric types', f1_hash, 6, 'F'),
+    Rule('C05.T3', 'RealFloat + / * with an infinite or NaN float follow IEEE; unknown operand types are left to the reflected method', t3_realfloat_foreign_operands, 11, 'T'),
 ]
 
 from ..selftest import Mutant  # noqa: E402
 
 MUTANTS = [
+    Mutant('real-times-inf-sign-twice', REALS, "                    s = self._s != (math.copysign(1.0, other) < 0)\n                    return -math.inf if s else math.inf",
+           "                    s = self._s != (math.copysign(1.0, other) < 0)\n                    return other * (-1.0 if s else 1.0)", 'C05.T3', 'finding F31 before its repair: 2 * -inf = +inf'),
+    Mutant('real-zero-times-inf', REALS, "                    if math.isnan(other) or self._c == 0:\n                        return math.nan", "                    if math.isnan(other):\n                        return math.nan", 'C05.T3'),
+    Mutant('real-add-raises-for-float-operand', REALS, "                return NotImplemented\n\n        if self._c == 0:\n            if other._c == 0:", "                raise TypeError('unsupported operand')\n\n        if self._c == 0:\n            if other._c == 0:", 'C05.T3',
+           'finding F32 before its repair'),
     Mutant('float-pos-clears-sign', FLOATS, 'Returns this `Float` with no context (`self.ctx is None`).\n        """\n        return Float(x=self, ctx=None)',
            'Returns this `Float` with no context (`self.ctx is None`).\n        """\n        return Float(s=False, x=self, ctx=None)', 'C05.S1'),
     Mutant('real-abs-keeps-sign', REALS, 'return RealFloat(s=False, x=self)', 'return RealFloat(x=self)', 'C05.S1'),
